@@ -159,5 +159,35 @@ CHECKS["C07"] = dict(
   note="R7; Unicode surplus of the shorthands masked.",
   technique="bounded contract check (labelled) of the class algebra against set algebra; interval core under loop-invariant contracts where the verifier applies",
   design_ref="DESIGN.md section 8 (C07), 7 (B2/B3)")
+
+LANGNOTE = ("Relative to R3,R4,R6,R7 about re, CPython's parser as reader of the pattern, the rx2smt translator (cross-checked "
+            "against re on sampled texts each run), z3's regex theory and the derivative-product decision procedure (both back "
+            "ends must agree), and the specification generators in specs/. Unicode-only digits excluded from the texts.")
+CHECKS["C15"] = dict(
+  category="exploration",
+  text="Bounded in (start, end), complete in the text: for each pair of a stated finite set (edge values 0,1,5,9,10,11,19,20,99,100,"
+       "101,109,123,199,900,999,1000 and 2^31-1; thorough adds all pairs < 60 and random pairs < 10^6) the real constructor is run "
+       "and the emitted regex's language of possible matches IN EVERY CONTEXT is proved equal to 'canonical numeral of [start,end], "
+       "not glued to a word character' (extensible: preceded by a non-digit) by regular-language inclusion in both directions; sign "
+       "variants likewise. __Integer.__integer itself (digit loop building nested look-behinds) is outside the solvers' reach for "
+       "symbolic parameters, hence exploration.",
+  note=LANGNOTE, technique="per-parameter complete language decision of the emitted pattern (SMT regex theory + derivative-product procedure), labelled bounded in the parameters",
+  design_ref="DESIGN.md section 8 (C15), 7 (B5)")
+CHECKS["C16"] = dict(
+  category="exploration",
+  text="As C15 for Decimal / UnsignedDecimal / NegativeDecimal: per parameter tuple (ranges x fraction-length bounds x is_extensible) "
+       "the emitted language in every context equals 'integer part of the corresponding Integer pattern (or none when start is 0) . "
+       "min..max digits'; invalid bounds raise the documented exceptions (bounded sample). PositiveDecimal / include_sign: only "
+       "constructed and validated (their sign rules are not documented precisely).",
+  note=LANGNOTE, technique="per-parameter complete language decision of the emitted pattern, labelled bounded in the parameters",
+  design_ref="DESIGN.md section 8 (C16)")
+CHECKS["C17"] = dict(
+  category="exploration",
+  text="Per parameter tuple (all 15 bases x length bounds; Word bounds x is_global x is_extensible; affix lists incl. "
+       "metacharacters) the emitted language in every context equals the documented reference language (Numeral: standalone "
+       "strings of n_min..n_max digits of the base; Word: maximal runs of word characters; Word*: words containing / starting / "
+       "ending with a literal affix); invalid parameters raise the documented exceptions (bounded sample).",
+  note=LANGNOTE, technique="per-parameter complete language decision of the emitted pattern against a reference language, labelled bounded in the parameters",
+  design_ref="DESIGN.md section 8 (C17)")
 NOT_APPLICABLE = {p: PENDING for p in ["C%02d" % i for i in range(1, 21)] if p not in CHECKS}
 
